@@ -5,6 +5,7 @@ import (
 	"fmt"
 	"slices"
 	"strings"
+	"time"
 
 	am "github.com/pancsta/asyncmachine-go/pkg/machine"
 )
@@ -62,6 +63,9 @@ type TxRec struct {
 	// Enters/Exits as computed by the machine.
 	Enters, Exits am.S
 	QueueTick     uint64
+	// FinalsAfter / FinalsMach: the transition's TimeAfter and the machine's
+	// Time(nil) as seen by the TransitionFinals callback (nil if not called).
+	FinalsAfter, FinalsMach am.Time
 }
 
 // RecTracer records transitions. Not safe for concurrent machines.
@@ -98,7 +102,12 @@ func (r *RecTracer) TransitionStart(t *am.Transition) {
 
 func (r *RecTracer) TransitionFinals(t *am.Transition) {
 	r.Raw = append(r.Raw, "F:"+t.Id)
-	r.get(t).Calls += "F"
+	x := r.get(t)
+	x.Calls += "F"
+	x.FinalsAfter = slices.Clone(t.TimeAfter)
+	if r.Mach != nil {
+		x.FinalsMach = r.Mach.Time(nil)
+	}
 }
 
 func (r *RecTracer) TransitionEnd(t *am.Transition) {
@@ -286,4 +295,57 @@ func ExploreSpec(sp Spec, muts []Step, o ExploreOpts, visit func(t *Trans)) (sta
 		}
 	}
 	return
+}
+
+// RunStep builds a fresh machine (setup runs on it), replays path, then
+// applies mut under arm (called right before the mutation, after the tracer
+// was reset) and returns the recorded transition.
+func RunStep(sp Spec, path []Step, mut Step, setup func(m *am.Machine), arm func(m *am.Machine)) *Trans {
+	m, tr := NewMach(sp, setup)
+	for _, s := range path {
+		SafeApply(s, m)
+	}
+	tr.Reset()
+	t := &Trans{Spec: sp, Path: path, Mut: mut, Mach: m, Index: m.StateNames()}
+	t.Before = m.ActiveStates(nil)
+	t.TimeBefore = m.Time(nil)
+	if arm != nil {
+		arm(m)
+	}
+	t.Result, t.Panic = SafeApply(mut, m)
+	if t.Panic == "" {
+		t.After = m.ActiveStates(nil)
+		t.TimeAfter = m.Time(nil)
+	}
+	t.Txs = tr.Txs
+	return t
+}
+
+// ActiveOf derives the active set from a time slice.
+func ActiveOf(index am.S, t am.Time) am.S {
+	var out am.S
+	for i, v := range t {
+		if v%2 == 1 && i < len(index) {
+			out = append(out, index[i])
+		}
+	}
+	return out
+}
+
+// Bubbles: helper to dispose handler-bound machines inside a synctest bubble.
+type Disposer struct{ ms []*am.Machine }
+
+func (d *Disposer) Track(m *am.Machine) { d.ms = append(d.ms, m) }
+func (d *Disposer) Len() int            { return len(d.ms) }
+func (d *Disposer) DisposeAll() {
+	for _, m := range d.ms {
+		m.Dispose()
+	}
+	for _, m := range d.ms {
+		<-m.WhenDisposed()
+	}
+	if len(d.ms) > 0 {
+		time.Sleep(10 * time.Second)
+	}
+	d.ms = nil
 }
